@@ -168,13 +168,10 @@ pub fn def(ctx: &Ctx) -> PropertyDef {
     let mut scenarios: Vec<Scenario> = Vec::new();
     for (p, gone, reput) in programs() {
         let three = p.threads.len() >= 3;
-        scenarios.push(program_scenario(p, oracle(gone, reput), move |_c| IlvCfg {
-            bounds: if quick { if three { vec![0, 1] } else { vec![0, 1, 2] } } else { vec![0, 1, 2, 3] },
-            workers,
-            split_depth: 6,
-            time_cap_s: Some(if quick { 8.0 } else { 300.0 }),
-            max_executions: None,
-        }));
+        scenarios.push({
+                let nthreads = p.threads.len();
+                program_scenario(p, oracle(gone, reput), move |c| crate::harness::ilv::tier_cfg(c, nthreads))
+            });
     }
     scenarios.push(seq_scenario(seq_spec, "seq/delete-in-every-life-cycle-state"));
     PropertyDef {
